@@ -251,7 +251,7 @@ impl Track {
 			let Some(send_track) = send_tracks.get_mut(send_track_id.0) else {
 				continue;
 			};
-			send_track.add_input(out, volume.value());
+			send_track.add_input(out, volume);
 		}
 	}
 
